@@ -26,6 +26,7 @@ func c13(c *Ctx) {
 	c13reload(c)
 	c13kube(c)
 	c13attach(c)
+	c13atomicSnapshot(c)
 }
 
 const discovPkg = "core/discov"
@@ -282,11 +283,33 @@ func c13events(c *Ctx) {
 	ps := c.paths(rule, f, px.Config{MaxVisits: 2, MaxPaths: 100000})
 	lockF, unlockF := lockOn("lock", "Lock"), lockOn("lock", "Unlock")
 	puts, dels := 0, 0
+	var eventsP *ssa.Parameter
+	for _, p := range f.Params {
+		if strings.HasPrefix(typeString(p.Type()), "[]*") && strings.HasSuffix(typeString(p.Type()), "Event") {
+			eventsP = p
+		}
+	}
+	// the event comes straight out of the events parameter (every event of the response is applied, in order): a
+	// filtered or compacted copy drops intermediate events — a DELETE followed by a PUT of the same key collapses into
+	// the PUT, and an exclusive subscriber never sees the key leave
+	fromEvents := func(s *px.Sym) bool {
+		for d := 0; s != nil && d < 12; d++ {
+			s = s.Strip(true)
+			if s == nil {
+				return false
+			}
+			if eventsP != nil && isParam(s, eventsP) {
+				return true
+			}
+			s = s.X
+		}
+		return false
+	}
 	evKV := func(s *px.Sym, fld string) bool {
 		// string(ev.Kv.Key) / string(ev.Kv.Value)
 		s = s.Strip(true)
 		b, ok := fieldLoadBase(s, fld)
-		return ok && b != nil
+		return ok && b != nil && (eventsP == nil || fromEvents(b))
 	}
 	held := c.forall(rule, discovInt+".(*cluster).handleWatchEvents", "PUT ⇒ values[key] = value under the write lock, then OnAdd{key,value} to the listeners; DELETE ⇒ delete(values, key) under the write lock, then OnDelete{key,…}; an unknown watcher ⇒ nothing", f, ps, func(p *px.Path) (bool, string) {
 		w := 0
@@ -352,7 +375,7 @@ func c13events(c *Ctx) {
 					return false, "watcher.values written without the write lock"
 				}
 				if !evKV(e.Key, "Key") || !evKV(e.Val, "Value") {
-					return false, "values[...] is not set from the event's key and value"
+					return false, "values[...] is not set from the key and value of an element of the events parameter (the events are not taken one by one from the watch response itself)"
 				}
 			case e.Kind == px.EvCall && e.Call.Builtin == "delete" && px.IsFieldLoad(e.Call.Args[0], "values", nil):
 				dels++
